@@ -32,7 +32,7 @@ def run(pid, tier, seed, replay=None):
         rp = json.load(open(replay))
         case = rp["trace"]["input"]
         if rp["trace"].get("history"):
-            fn = "run_solve_history"
+            fn = "run_enc_history" if pid == "C06" else "run_solve_history"
         trs = [t for t in run_tasks("cp", fn, [case], timeout=60) if isinstance(t, dict) and "kind" in t]
         vs = ck.validate(DIR, "CpTrace", trs, "replay")
         ck.classify(trs, vs)
@@ -68,6 +68,21 @@ def run(pid, tier, seed, replay=None):
                 trs.append({"kind": "solve", "doms": [[lb, ub] for _, lb, ub in c["vars"]], "named": [True] * len(c["vars"]), "cons": [],
                             "input": c, "events": [{"e": what, "what": "WorkerCrash"}]})
         ck.extra["model_histories_solve_extend_solve"] = len(hc)
+    if pid == "C06":       # encoder over call histories: solve, extend the same Model object, encode again
+        hc = [drv.gen_history_case(rng, aux=i % 2 == 0) for i in range(n // 3)]
+        for i, c in enumerate(hc):
+            c["presolves"] = 1 + (i % 3 == 2)
+            c["prelimit"] = 1 if i % 4 else 3
+        for c, r in zip(hc, run_tasks("cp", "run_enc_history", hc, timeout=60)):
+            if isinstance(r, dict) and r.get("unsupported"):
+                unsupported += 1
+            elif isinstance(r, dict) and "kind" in r:
+                trs.append(r)
+            else:
+                what = "noreturn" if isinstance(r, dict) and r.get("__noreturn__") else "raise"
+                trs.append({"kind": "solve", "doms": [[lb, ub] for _, lb, ub in c["vars"]], "named": [True] * len(c["vars"]), "cons": [],
+                            "input": c, "events": [{"e": what, "what": "WorkerCrash"}]})
+        ck.extra["model_histories_solve_extend_encode"] = len(hc)
     ck.extra["cases_rejected_by_public_operators_TypeError"] = unsupported
     vs = ck.validate(DIR, "CpTrace", trs, "CP models built through the public operators", timeout=3000, chunk=40 if pid == "C06" else None)
     ck.classify(trs, vs, nontrivial=lambda t, v: v.get("nsol", 0) > 0 or len(t["cons"]) > 0)
